@@ -52,19 +52,30 @@ theorem deByName_found : ∀ (alts : Fields) (i : Nat) (x : Val) (j : Json) (k :
       have ih := deByName_found tl i x j (k + 1) hn.2 ht' (by simpa [altSchema] using hd)
       simp [deByName, altName, hne, ih]; omega
 
-theorem deUntagged_found : ∀ (alts : Fields) (i : Nat) (x : Val) (k : Nat), wfDisjoint alts = true →
-    typedAlt alts i x = true → de (altSchema alts i) (serAlt alts i x) = some x →
-    deUntagged alts (serAlt alts i x) k = some (.var (k + i) x)
-  | .nil, _, _, _, _, h, _ => by simp [typedAlt] at h
-  | .cons _ _ s tl, 0, x, k, _, _, hd => by
-      simp [altSchema, serAlt] at hd; simp [deUntagged, serAlt, hd]
-  | .cons _ _ s tl, i + 1, x, k, hw, ht, hd => by
+theorem deUntagged_found : ∀ (alts : Fields) (i : Nat) (x : Val) (j : Json) (k : Nat), earlierReject alts i j = true →
+    typedAlt alts i x = true → de (altSchema alts i) j = some x →
+    deUntagged alts j k = some (.var (k + i) x)
+  | .nil, _, _, _, _, _, h, _ => by simp [typedAlt] at h
+  | .cons _ _ s tl, 0, x, j, k, _, _, hd => by
+      simp [altSchema] at hd; simp [deUntagged, hd]
+  | .cons _ _ s tl, i + 1, x, j, k, hw, ht, hd => by
+      simp [earlierReject] at hw
+      have ht' : typedAlt tl i x = true := by simpa [typedAlt] using ht
+      have ih := deUntagged_found tl i x j (k + 1) hw.2 ht' (by simpa [altSchema] using hd)
+      simp [deUntagged, hw.1, ih]; omega
+
+/-- with pairwise disjoint shapes the canonicity side condition of `hasType` on untagged values is vacuous -/
+theorem earlierReject_of_disjoint : ∀ (alts : Fields) (i : Nat) (x : Val), wfDisjoint alts = true → typedAlt alts i x = true →
+    earlierReject alts i (serAlt alts i x) = true
+  | .nil, _, _, _, h => by simp [typedAlt] at h
+  | .cons _ _ s tl, 0, x, _, _ => by simp [earlierReject]
+  | .cons _ _ s tl, i + 1, x, hw, ht => by
       simp [wfDisjoint] at hw
       have ht' : typedAlt tl i x = true := by simpa [typedAlt] using ht
       have hk := serAlt_kind tl i x ht'
       have hnot : kindOf (serAlt tl i x) ∉ shape s := fun hin => disjointN_spec hw.1 _ hin hk
-      have ih := deUntagged_found tl i x (k + 1) hw.2 ht' (by simpa [altSchema, serAlt] using hd)
-      simp [deUntagged, serAlt, de_kind s _ hnot, ih]; omega
+      simp [earlierReject, serAlt, de_kind s _ hnot]
+      exact earlierReject_of_disjoint tl i x hw.2 ht'
 
 theorem mapM_de_ser (f : Val → Json) (g : Json → Option Val) :
     ∀ (vs : List Val), (∀ v ∈ vs, g (f v) = some v) → (vs.map f).mapM g = some vs
